@@ -18,7 +18,7 @@ def run(ctx):
     ctx.rule = ("TLC checks KeptExactly, ModeIsArgmin (first draw on ties), MeanOverKept and AcceptedReturns of Personalize.tla for "
                 "every number of iterations <= 5, every burn-in length, 2 individuals and 3 abstract loss levels; real "
                 "mean_posterior / mode_posterior runs (model kinds x n_iter 2..6 x burn-in fractions incl. 0 and 1 x annealing x "
-                "cohorts with missing data, a one-visit subject, identifiers in non-sorted order) are recorded: the chain after "
+                "cohorts with missing data, a one-visit subject, identifiers in non-sorted order, a subject whose scores are all missing - known only by its early event for the joint model) are recorded: the chain after "
                 "every iteration, the samples handed to the estimator, attachment + regularity per draw; TLC checks "
                 "(PersonalizeTrace.tla) that exactly the iterations after burn-in are kept, that the mode is the first kept draw of "
                 "lowest loss per individual, the mean bit-equal to the mean of the kept draws, and that outputs are keyed by the "
@@ -46,7 +46,7 @@ def run(ctx):
         for a, n, f, an, v in must + combos[: (6 if q else 60)]:
             recs.append(pe.run_sampling(kind, a, n, f, an, v, ctx.seed + 1))
             ctx.case(key=(kind, a, n, f, an, v))
-        for v in (variants if not q else ["missing", "unsorted_ids"]):
+        for v in ((variants + ["nan_subject"]) if not q else ["missing", "unsorted_ids", "nan_subject"]):
             for jac in ((False,) if q else (False, True)):
                 recs.append(pe.run_optim(kind, v, ctx.seed + 2, jac))
                 ctx.case(key=(kind, "scipy", v, jac))
